@@ -61,6 +61,50 @@ pub fn attr_split(input: &str) -> impl Iterator<Item = String> + '_ {
         .map(|v| v.to_string())
 }
 
+/// Split a list of SVG numbers. Numbers are separated by whitespace and / or a comma, or
+/// by nothing at all where the number grammar
+/// `sign? (digit+ ('.' digit*)? | '.' digit+) (('e' | 'E') sign? digit+)?`
+/// ends one number and a sign or decimal point starts the next ("10-3", ".5.5").
+pub fn svg_number_list(input: &str) -> Result<Vec<f32>> {
+    let chars: Vec<char> = input.chars().collect();
+    let mut out = Vec::new();
+    let mut i = 0;
+    let digits = |i: &mut usize| {
+        while *i < chars.len() && chars[*i].is_ascii_digit() {
+            *i += 1;
+        }
+    };
+    loop {
+        while i < chars.len() && (chars[i].is_whitespace() || chars[i] == ',') {
+            i += 1;
+        }
+        if i >= chars.len() {
+            return Ok(out);
+        }
+        let start = i;
+        if chars[i] == '+' || chars[i] == '-' {
+            i += 1;
+        }
+        digits(&mut i);
+        if i < chars.len() && chars[i] == '.' {
+            i += 1;
+            digits(&mut i);
+        }
+        if i < chars.len() && (chars[i] == 'e' || chars[i] == 'E') {
+            i += 1;
+            if i < chars.len() && (chars[i] == '+' || chars[i] == '-') {
+                i += 1;
+            }
+            digits(&mut i);
+        }
+        if i == start {
+            // not the start of a number: let strp report the offending text
+            i = chars.len();
+        }
+        out.push(strp(&chars[start..i].iter().collect::<String>())?);
+    }
+}
+
 pub fn extract_urlref(input: &str) -> Option<ElRef> {
     input
         .trim()
